@@ -51,6 +51,28 @@ def fused_inexact_cases(ctx, n):
     return cases
 
 
+def neginf_cases(ctx, n):
+    """Arrays that hold -inf (the value lcm gives to infeasible states and what it passes as `initial' together with a mask): slices
+    whose admissible elements are ALL -inf still have an admissible maximiser -- the first admissible position, not position 0."""
+    rng = ctx.rng("neginf")
+    cases = []
+    shapes = [[2], [3], [4], [2, 2], [2, 3], [3, 2], [2, 2, 2]]
+    for i in range(n):
+        shape = rng.choice(shapes)
+        size = 1
+        for s in shape:
+            size *= s
+        rank = len(shape)
+        axes = rng.choice({1: [[0]], 2: [[0], [1], [0, 1], [1, 0]], 3: [[1, 2], [2], [0, 1, 2], [0, 2], [2, 0]]}[rank])
+        where = [rng.random() < 0.55 for _ in range(size)]
+        a = [rng.choice([[-1, 0], [-1, 0], q(0), q(1)]) for _ in range(size)]
+        if i % 2 == 0:      # every admissible element is -inf, inadmissible ones are anything
+            a = [[-1, 0] if w else x for x, w in zip(a, where, strict=True)]
+        cases.append({"fn": "argmax", "kind": "argmax with -inf entries", "shape": shape, "a": a, "has_where": True, "where": where,
+                      "axes": axes, "mode": "jit" if i % 3 == 0 else "eager", "tol": EXACT})
+    return cases
+
+
 def compositions(rng, n):
     lens = []
     left = n
@@ -139,6 +161,7 @@ def run(ctx: Ctx) -> Result:
         gen_cases = gen_cases[:160000]
     cases = argmax_cases(ctx, gen_cases)
     cases += fused_inexact_cases(ctx, ctx.n(600, 6000))
+    cases += neginf_cases(ctx, ctx.n(300, 3000))
     cases += seg_cases(ctx, ctx.n(600, 6000))
     cases += reduce_cases(ctx, ctx.n(500, 5000))
     for i, c in enumerate(cases):
